@@ -4,7 +4,12 @@
 use std::cmp::*;
 use std::f64;
 use std::ops::*;
+#[cfg(not(prometheus_verif))]
 use std::sync::atomic::{AtomicI64 as StdAtomicI64, AtomicU64 as StdAtomicU64, Ordering};
+#[cfg(prometheus_verif)]
+use crate::verif_sync::{AtomicI64 as StdAtomicI64, AtomicU64 as StdAtomicU64};
+#[cfg(prometheus_verif)]
+use std::sync::atomic::Ordering;
 
 /// An interface for numbers. Used to generically model float metrics and integer metrics, i.e.
 /// [`Counter`](crate::Counter) and [`IntCounter`](crate::Counter).
@@ -236,6 +241,30 @@ impl AtomicU64 {
     /// Stores a value into the atomic integer, returning the previous value.
     pub fn swap(&self, val: u64, ordering: Ordering) -> u64 {
         self.inner.swap(val, ordering)
+    }
+}
+
+#[cfg(prometheus_verif)]
+impl AtomicF64 {
+    /// Address under which the verification shim reports this atomic.
+    pub fn verif_addr(&self) -> usize {
+        &self.inner as *const StdAtomicU64 as usize
+    }
+}
+
+#[cfg(prometheus_verif)]
+impl AtomicI64 {
+    /// Address under which the verification shim reports this atomic.
+    pub fn verif_addr(&self) -> usize {
+        &self.inner as *const StdAtomicI64 as usize
+    }
+}
+
+#[cfg(prometheus_verif)]
+impl AtomicU64 {
+    /// Address under which the verification shim reports this atomic.
+    pub fn verif_addr(&self) -> usize {
+        &self.inner as *const StdAtomicU64 as usize
     }
 }
 
